@@ -130,12 +130,11 @@ inductive DimKind (α : Type) where
   | range (ticks : List α) (unit : Got (Option String))
   | sampled (interval : Got α) (offsetSet : Got Bool) (unit : Got (Option String))
   | set (labels : Nat)
-  | frame (rows : Nat)
+  | frame (rows : Nat) (colUnit : Option String)   -- size(); unit() of the column when a column index is set
 
 structure DimDesc (α : Type) where
   index : Nat               -- Dimension::index()
   kind : DimKind α
-  dunit : String            -- util::getDimensionUnit(dim)  ("none" when there is no unit)
 
 structure ArrayDesc (α : Type) where
   ent : Named
@@ -155,7 +154,7 @@ structure FeatureDesc where
 deriving DecidableEq, Repr
 
 /-- the part Tag and MultiTag share.  `refs`: for every referenced array the units of its dimensions
-    (`getDimensionsUnits(ref)`) -/
+    (`getDimensionsUnits(ref)`, modelled below as `resolveRefs` over the arrays of the tag's block) -/
 structure TagDesc where
   ent : Named
   isMulti : Bool
@@ -188,6 +187,38 @@ structure BlockDesc (α : Type) where
 structure FileDesc (α : Type) where
   blocks : List (BlockDesc α)
   sections : List SectionDesc   -- file.findSections()
+
+-- ---------------------------------------------------------------------------------------------------
+-- src/valid/helper.cpp getDimensionsUnits, src/util/dataAccess.cpp getDimensionUnit
+-- ---------------------------------------------------------------------------------------------------
+
+/-- `unit().value_or("none")` -/
+def unitOrNone (u : Got (Option String)) : String :=
+  match u with
+  | .val (some s) => s
+  | _ => "none"
+
+/-- `util::getDimensionUnit(dim)` -/
+def dimensionUnit (d : DimDesc α) : String :=
+  match d.kind with
+  | .set _ => "none"
+  | .frame _ colUnit =>
+    match colUnit with                       -- unit = "none"; if (columnIndex()) unit = df_dim.unit(); if (unit.empty()) unit = "none";
+    | some u => if u.isEmpty then "none" else u
+    | none => "none"
+  | .sampled _ _ unit => unitOrNone unit
+  | .range _ unit => unitOrNone unit
+
+/-- `valid::getDimensionsUnits(darray)` -/
+def getDimensionsUnits (a : ArrayDesc α) : List String := a.dims.map dimensionUnit
+
+/-- what `references()` hands to `tagUnitsMatchRefsUnits`, seen through `getDimensionsUnits`: the referenced arrays are
+    arrays of the tag's block, named by id -/
+def resolveRefs (arrays : List (ArrayDesc α)) (ids : List String) : List (List String) :=
+  ids.map fun i =>
+    match arrays.find? (·.ent.id == i) with
+    | some a => getDimensionsUnits a
+    | none => []
 
 -- ---------------------------------------------------------------------------------------------------
 -- check functors of src/valid/checks.cpp
@@ -261,7 +292,7 @@ def probeLabels (d : DimDesc α) : Option (Nat → Bool) :=
   | _ => none
 def probeRows (d : DimDesc α) : Option (Nat → Bool) :=
   match d.kind with
-  | .frame rows => some fun n => !(rows == n)
+  | .frame rows _ => some fun n => !(rows == n)
   | _ => none
 
 def dimTicksMatchData (shape : List Nat) (dims : List (DimDesc α)) : Bool := dimsLoop probeTicks shape dims
@@ -366,7 +397,7 @@ def validateDim (d : DimDesc α) : Result :=
   | .range ticks unit => validateRange d.index ticks unit
   | .set _ => validateSet d.index
   | .sampled si off unit => validateSampled d.index si off unit
-  | .frame _ => Result.empty
+  | .frame _ _ => Result.empty
 
 /-- `validate(const Feature &)`; `notSmaller(0)` on the enumerator -/
 def validateFeature (f : FeatureDesc) : Result :=
